@@ -56,6 +56,17 @@ def _per_config(ctx, R, fn, configs=None):
         R.extend(r)
 
 
+def _inl(rule):
+    """the rule looks at one function at a time: give it the view in which static helpers the pinned tree does not have are
+    inlined where they are called (cjsa/specialize.py); the engines that follow calls themselves keep the program as written"""
+    from .specialize import inlined
+
+    def run(units, r):
+        rule(inlined(units), r)
+    run.__name__ = getattr(rule, '__name__', 'rule')
+    return run
+
+
 # ---- property definitions ----------------------------------------------------------------------
 
 def run_C14(ctx, R):
@@ -64,7 +75,7 @@ def run_C14(ctx, R):
     _per_config(ctx, R, eff.eff2)
     _per_config(ctx, R, eff.eff3)
     from .rules import own
-    _per_config(ctx, R, own.own5)
+    _per_config(ctx, R, _inl(own.own5))
     _per_config(ctx, R, own.dbl1)
     for cfg in ctx.configs():
         r = Results(config=cfg)
@@ -139,7 +150,7 @@ def run_C15(ctx, R):
     _per_config(ctx, R, tab.tab9)
     _scoped(ctx, R, tab.tab11, C15_ENTRIES, 3)
     _scoped(ctx, R, out.out5, C15_ENTRIES | {'cJSONUtils_GeneratePatches'}, 3)
-    _scoped(ctx, R, out.out7, C15_ENTRIES, 2)
+    _scoped(ctx, R, _inl(out.out7), C15_ENTRIES, 2)
     _per_config(ctx, R, utilsx.dig1)
     _scoped(ctx, R, utilsx.tab18, C15_ENTRIES, 1)
     _scoped(ctx, R, bnd3.bnd3_pointer, C15_ENTRIES, 30)
@@ -181,9 +192,9 @@ def run_C17(ctx, R):
     _scoped(ctx, R, tab.tab20, C17_ENTRIES, 0)
     from .rules import cmpfold
     _per_config(ctx, R, lambda units, r: cmpfold.cmp1(units, r, unit_names=('cJSON_Utils.c',)))
-    _scoped(ctx, R, out.out7, C17_ENTRIES, 3)
-    _per_config(ctx, R, utilsx.gen1)
-    _per_config(ctx, R, utilsx.gen2)
+    _scoped(ctx, R, _inl(out.out7), C17_ENTRIES, 3)
+    _per_config(ctx, R, _inl(utilsx.gen1))
+    _per_config(ctx, R, _inl(utilsx.gen2))
     _per_config(ctx, R, utilsx.dig1)
     from .rules import tree
     _scoped(ctx, R, tree.tab3, C17_ENTRIES, 4)
@@ -225,7 +236,7 @@ def run_C01(ctx, R):
     _per_config(ctx, R, bnd.bnd_parse)
     _per_config(ctx, R, parse.tab1)
     _per_config(ctx, R, parse.tab1_depth_balance)
-    _per_config(ctx, R, parse.bnd6)
+    _per_config(ctx, R, _inl(parse.bnd6))
     _per_config(ctx, R, parse.tab2_parse)
     _per_config(ctx, R, _only_functions(_own_cjson, PARSE_FNS, 'OWN2', 8))      # "... or a leak"
 
@@ -399,13 +410,13 @@ def run_C04(ctx, R):
     _per_config(ctx, R, outbuf.out1)
     _per_config(ctx, R, outsym.out23)
     _per_config(ctx, R, outbuf.out8)
-    _per_config(ctx, R, outbuf.tab2_print)
+    _per_config(ctx, R, _inl(outbuf.tab2_print))
     _per_config(ctx, R, outbuf.prt1)
 
 
 def run_C05(ctx, R):
     from .rules import outbuf, tree
-    _per_config(ctx, R, outbuf.tab2_print)
+    _per_config(ctx, R, _inl(outbuf.tab2_print))
     _per_config(ctx, R, outbuf.tab15)
     _per_config(ctx, R, _only_functions(tree.tab3, {'print_value'}, 'TAB3', 3))
     _per_config(ctx, R, outbuf.tab5bc)
@@ -421,13 +432,13 @@ def run_C05(ctx, R):
 def run_C02(ctx, R):
     from .rules import parse, lst
     _per_config(ctx, R, parse.tab2_parse)
-    _per_config(ctx, R, parse.tab4)
+    _per_config(ctx, R, _inl(parse.tab4))
     _per_config(ctx, R, parse.tab5a)
     from .rules import codeset
     _per_config(ctx, R, codeset.tab6)
     _per_config(ctx, R, _only_functions(parse.tab7, {'parse_number'}, 'TAB7', 1))
-    _per_config(ctx, R, parse.c02_structure)
-    _per_config(ctx, R, parse.tab21)
+    _per_config(ctx, R, _inl(parse.c02_structure))
+    _per_config(ctx, R, _inl(parse.tab21))
     _per_config(ctx, R, _only_functions(lst.lst1, {'parse_array', 'parse_object'}, 'LST1', 2))
     _per_config(ctx, R, parse.tab1_depth_balance)
     from .rules import parse as _parse
@@ -442,9 +453,9 @@ def run_C03(ctx, R):
     _per_config(ctx, R, parse.tab5a)
     _per_config(ctx, R, _only_functions(parse.tab17, PARSE_FNS, 'TAB17', 10))
     _per_config(ctx, R, _only_functions(tab.tab8, PARSE_FNS, 'TAB8', 2))
-    _per_config(ctx, R, parse.tab4)
-    _per_config(ctx, R, parse.c03_structure)
-    _per_config(ctx, R, parse.tab21)
+    _per_config(ctx, R, _inl(parse.tab4))
+    _per_config(ctx, R, _inl(parse.c03_structure))
+    _per_config(ctx, R, _inl(parse.tab21))
     from .rules import parse as _parse
     _per_config(ctx, R, _parse.num2)
     _per_config(ctx, R, _parse.num3)
@@ -452,10 +463,10 @@ def run_C03(ctx, R):
 
 def run_C07(ctx, R):
     from .rules import own, tree, lst
-    _per_config(ctx, R, own.own5)
+    _per_config(ctx, R, _inl(own.own5))
     _per_config(ctx, R, own.del1)
     _per_config(ctx, R, own.dbl1)
-    _per_config(ctx, R, own.own6)
+    _per_config(ctx, R, _inl(own.own6))
     _per_config(ctx, R, own.own4_dangling)
     _per_config(ctx, R, _own_cjson)
     _per_config(ctx, R, own.verify_summaries)
